@@ -624,6 +624,9 @@ class OpsMixin:
             return outs
         if isinstance(v, Stacked) and isinstance(v.n, int):
             return self.unpack(self.iterate(v), n)
+        if isinstance(v, Stacked):
+            # a batch of n-tuples unzips into n batches (what jax.vmap / lax.scan return for tuple-valued functions)
+            return [Stacked(v.n, lambda i, j=j: self.getitem(v.at(i), j), tag=f"unzip{j}") for j in range(n)]
         if isinstance(v, Obj):
             return self.unpack(self.iterate(v), n)
         return self.unpack(self.iterate(v), n)
@@ -678,11 +681,24 @@ class OpsMixin:
                 s = k.start
                 return Stacked(o.n - s, lambda i: o.at(i + s), tag="slice")
             raise Unsupported(f"index {k!r} into Stacked")
+        if type(o).__name__ == "AtRef":
+            from .interp_call import AtIdx
+            return AtIdx(o.base, k)
         if isinstance(o, Obj):
             return self.call_method(o, "__getitem__", [k], {})
         if isinstance(o, UVal):
             if o.cls is not None and self.has_method(o, "__getitem__"):
                 return self.call_method(o, "__getitem__", [k], {})
+            if o.cls == "shape" and isinstance(k, int) and k >= 0:
+                # x.shape[k]: a concrete Python int; for k = 0 it is the length of the leading axis
+                if z3.is_app(o.t) and o.t.decl().name() == "shape_of" and k == 0:
+                    n = self.ctx.fn("axis0_len", U, z3.IntSort())(o.t.arg(0))
+                else:
+                    n = self.ctx.fn("shape_dim", U, z3.IntSort(), z3.IntSort())(o.t, z3.IntVal(k))
+                self.ctx.assume(n >= 0)
+                return SInt(n, True)
+            if o.cls in ("array", "batched") and isinstance(k, (int, SInt)):
+                return UVal(self.ctx.fn("axis0_index", U, z3.IntSort(), U)(o.t, zint(k)), o.cls)
             if o.cls == "tuple" or o.cls is None:
                 if isinstance(k, int) and k >= 0:
                     f = self.ctx.fn("tuple_get", U, z3.IntSort(), U)
